@@ -191,23 +191,30 @@ _TIME_ONLY = re.compile(r"(?<![0-9T:.+-])\d{1,2}:\d{2}")
 
 def env_relative_value(v) -> bool:
     """Does this input legitimately make the outcome depend on clock or zone?
-    (time-only text, naive temporals, aware times converted via 'today')."""
-    if isinstance(v, str):
-        return bool(_TIME_ONLY.search(v)) or v.strip().startswith("T")
-    if isinstance(v, list):
-        return any(env_relative_value(x) for x in v)
-    if isinstance(v, dict):
-        if "$t" in v:
-            return True
-        if "$dt" in v and v["$dt"][7] is None:
-            return True
-        for tag in ("$b", "$ba", "$mv", "$mvw"):
-            if tag in v:
-                try:
-                    return env_relative_value(bytes.fromhex(v[tag]).decode("utf-8"))
-                except Exception:
-                    return False
-        return any(env_relative_value(x) for x in v.values())
+    (time-only text, naive temporals, aware times converted via 'today').  Iterative."""
+    stack = [v]
+    while stack:
+        cur = stack.pop()
+        if isinstance(cur, str):
+            if _TIME_ONLY.search(cur) or cur.strip().startswith("T"):
+                return True
+        elif isinstance(cur, list):
+            stack.extend(cur)
+        elif isinstance(cur, dict):
+            if "$t" in cur:
+                return True
+            if "$dt" in cur and cur["$dt"][7] is None:
+                return True
+            hit = False
+            for tag in ("$b", "$ba", "$mv", "$mvw"):
+                if tag in cur:
+                    hit = True
+                    try:
+                        stack.append(bytes.fromhex(cur[tag]).decode("utf-8"))
+                    except Exception:
+                        pass
+            if not hit:
+                stack.extend(cur.values())
     return False
 
 
